@@ -318,6 +318,8 @@ impl<'t> Exec<'t> {
         for h in 0..self.holders.len() {
             if self.mask.c03 && !self.holders[h].tainted {
                 self.run_battery(h, true, "final");
+            } else if self.mask.c18 && !self.holders[h].tainted && self.cap_state(h) {
+                self.run_battery(h, false, "final");
             }
         }
         if self.mask.c13 {
@@ -660,7 +662,9 @@ impl<'t> Exec<'t> {
         let cap_before = self.holders[h].subj.capacity();
         let heap_before = any!(&self.holders[h].subj, v => v.probe().heap);
         // twin: a freshly constructed vector with the same length and bits
-        let use_twin = self.mask.c03 && !was_tainted && !is_constructor(kind);
+        // capacity state that a freshly constructed vector would not have (spare words, heap-stored short Bv)
+        let cap_pre = self.cap_state(h);
+        let use_twin = (self.mask.c03 || self.mask.c18) && !was_tainted && !is_constructor(kind);
         let mut twin: Option<AnyBv> = if use_twin { Some(fresh_any(tid, &before)) } else { None };
         let mut subj = std::mem::replace(&mut self.holders[h].subj, fresh_any(0, &[]));
         let out_s = any!(&mut subj, s => guard(|| apply_op(s, st, &res)));
@@ -724,18 +728,26 @@ impl<'t> Exec<'t> {
         // ---- twin differential (C03)
         if let (Some(t), Some(ot)) = (&twin, &out_t) {
             self.evaluated("C03");
+            // C18: "capacity management never changes the value": a difference from the fresh twin on a
+            // subject whose capacity state is not the fresh one is also a C18 observation
+            let cap_now = cap_pre || self.cap_state(h);
+            if cap_now {
+                self.evaluated("C18");
+                self.bump("c18_twin_steps_with_capacity_state");
+            }
+            let c03: &[&'static str] = if cap_now { &["C03", "C18"] } else { &["C03"] };
             match (&out_s, ot) {
                 (Ok(a), Ok(b)) => {
                     let ta = abs_string_any(t);
                     let sa = format!("{}:{}", actual.len(), model::bits_to_string(&actual));
                     if a != b {
-                        self.report(&["C03"], "twin.return", h, kname, format!("return value differs from twin: subject {:?} twin {:?}", a, b));
+                        self.report(c03, "twin.return", h, kname, format!("return value differs from twin: subject {:?} twin {:?}", a, b));
                     } else if ta != sa {
-                        self.report(&["C03"], "twin.result", h, kname, format!("result differs from twin: subject {} twin {}", sa, ta));
+                        self.report(c03, "twin.result", h, kname, format!("result differs from twin: subject {} twin {}", sa, ta));
                     }
                 }
-                (Err(a), Ok(_)) => self.report(&["C03"], "twin.panic", h, kname, format!("subject panicked ({}) but its fresh twin did not", a)),
-                (Ok(_), Err(b)) => self.report(&["C03"], "twin.panic", h, kname, format!("fresh twin panicked ({}) but the subject did not", b)),
+                (Err(a), Ok(_)) => self.report(c03, "twin.panic", h, kname, format!("subject panicked ({}) but its fresh twin did not", a)),
+                (Ok(_), Err(b)) => self.report(c03, "twin.panic", h, kname, format!("fresh twin panicked ({}) but the subject did not", b)),
                 (Err(_), Err(_)) => {}
             }
         }
@@ -914,6 +926,13 @@ impl<'t> Exec<'t> {
                 self.run_battery(h, heavy, kname);
             }
         }
+        if self.mask.c18 && !self.mask.c03 && !self.holders[h].tainted && self.cap_state(h) {
+            if is_perturb(_kind) || self.step_idx % 8 == 0 {
+                self.run_battery(h, false, kname);
+            } else {
+                self.light_check(h, kname);
+            }
+        }
         if self.mask.c16 {
             self.rider_counts(h);
         }
@@ -950,6 +969,51 @@ impl<'t> Exec<'t> {
         }
     }
 
+    /// does the subject hold capacity state a freshly constructed vector of the same length would not have?
+    fn cap_state(&self, h: usize) -> bool {
+        let tid = self.holders[h].subj.tid();
+        if FIXED_CAP[tid as usize].is_some() {
+            return false;
+        }
+        let l = self.holders[h].subj.len();
+        if l > self.holders[h].subj.capacity() {
+            return false;
+        }
+        let fresh_cap = fresh_any(tid, &vec![false; l]).capacity();
+        let p = any!(&self.holders[h].subj, v => v.probe());
+        self.holders[h].subj.capacity() != fresh_cap || (tid == TID_BV && p.heap && l <= INLINE_LIMIT)
+    }
+
+    /// cheap subset of the battery: the observers that read whole storage words
+    fn light_check(&mut self, h: usize, kname: &str) {
+        let tid = self.holders[h].subj.tid();
+        let bits = self.holders[h].model.clone();
+        let twin = fresh_any(tid, &bits);
+        self.evaluated("C18");
+        self.bump("c18_light_checks");
+        let obs = |a: &AnyBv, other: &AnyBv| -> Vec<(String, String)> {
+            any!(a, v => {
+                let mut o: Vec<(String, String)> = vec![];
+                let n = v.len();
+                let mut put = |name: &str, r: Result<String, String>| o.push((name.to_string(), r.unwrap_or_else(|_| "PANIC".into())));
+                put("cmp.fresh", guard(|| format!("{:?}", v.cmp_any(other))));
+                put("is_zero", guard(|| format!("{:?}", v.is_zero())));
+                put("to_vec.be", guard(|| format!("{:?}", v.to_vec(Endianness::Big))));
+                put("significant_bits", guard(|| format!("{:?}", v.significant_bits())));
+                put("hash.sip", guard(|| format!("{:?}", sip_hash(v))));
+                put("fmt.x", guard(|| format!("{:x}", v)));
+                put("grow.resize0", guard(|| { let mut c = v.clone(); c.resize(n + 70, Bit::Zero); abs_string(&c) }));
+                put("grow.shr_in", guard(|| { let mut c = v.clone(); c.resize(n + 3, Bit::Zero); c.shr_in(Bit::Zero); abs_string(&c) }));
+                o
+            })
+        };
+        let a = obs(&self.holders[h].subj, &twin);
+        let b = obs(&twin, &twin);
+        if let Some((name, x, y)) = first_diff(&a, &b) {
+            self.report(&["C03", "C18"], &format!("light.{}", name), h, kname, format!("with non-fresh capacity state, observer {} differs: subject {} fresh twin {}", name, x, y));
+        }
+    }
+
     fn panel(&self, h: usize) -> Vec<AnyBv> {
         let mut p = vec![];
         for (i, o) in self.holders.iter().enumerate() {
@@ -966,18 +1030,23 @@ impl<'t> Exec<'t> {
         let tid = self.holders[h].subj.tid();
         let bits = self.holders[h].model.clone();
         self.evaluated("C03");
+        let cap = self.cap_state(h);
+        if cap {
+            self.evaluated("C18");
+        }
+        let c03: &[&'static str] = if cap { &["C03", "C18"] } else { &["C03"] };
         self.bump("batteries");
         let twin = fresh_any(tid, &bits);
         let a = any!(&self.holders[h].subj, v => battery(v, &panel, heavy));
         let b = any!(&twin, v => battery(v, &panel, heavy));
         if let Some((name, x, y)) = first_diff(&a, &b) {
-            self.report(&["C03"], &format!("battery.{}", strip_idx(&name)), h, kname, format!("observer {} differs: subject {} fresh twin {}", name, x, y));
+            self.report(c03, &format!("battery.{}", strip_idx(&name)), h, kname, format!("observer {} differs: subject {} fresh twin {}", name, x, y));
             return;
         }
         let ga = any!(&self.holders[h].subj, v => growth(v));
         let gb = any!(&twin, v => growth(v));
         if let Some((name, x, y)) = first_diff(&ga, &gb) {
-            self.report(&["C03"], &format!("growth.{}", strip_idx(&name)), h, kname, format!("growth probe {} differs: subject {} fresh twin {}", name, x, y));
+            self.report(c03, &format!("growth.{}", strip_idx(&name)), h, kname, format!("growth probe {} differs: subject {} fresh twin {}", name, x, y));
         }
     }
 
